@@ -376,6 +376,11 @@ fn record(
     }
 
     let max_items = if small { 2 } else { 5 };
+    // A "fat" record: scalar keys repeated up to six times and dozens of
+    // ignored lines, so that records of 20..170 lines occur (real ones have
+    // about 15; a per-record table, sort or buffer sized for that shows only
+    // past its threshold).
+    let fat = !small && r.chance(1, 10);
     let mut body: Vec<Line> = vec![];
     let mut repeated = 0;
     let mut fault_item = "-";
@@ -442,10 +447,14 @@ fn record(
                 body.push(kv_line(r, "MULTI_VERSION", &text, Sem::MultiVersion(items)));
             }
             _ => {
-                let copies = match r.below(8) {
-                    0 => 2,
-                    1 => 3,
-                    _ => 1,
+                let copies = if fat {
+                    r.range(1, 6)
+                } else {
+                    match r.below(8) {
+                        0 => 2,
+                        1 => 3,
+                        _ => 1,
+                    }
                 };
                 if copies > 1 {
                     repeated += 1;
@@ -462,10 +471,14 @@ fn record(
 
     // ignored lines at random places after the PKGNAME= line
     let mut ignored = 0;
-    let nign = match r.below(6) {
-        0 => r.range(1, 4),
-        1 => 1,
-        _ => 0,
+    let nign = if fat {
+        r.range(5, 80)
+    } else {
+        match r.below(6) {
+            0 => r.range(1, 4),
+            1 => 1,
+            _ => 0,
+        }
     };
     for _ in 0..nign {
         let id = next_id("x");
